@@ -15,8 +15,9 @@ Inductive leafk : Type := LAny | LBool | LChar | LNonZero.
 Inductive cty : Type :=
 | CLeaf (size align : N) (k : leafk)
 | CStruct (packed align : N) (fields : list cty)
-(* enum: 1 = repr(C) (tag is c_int), 2 = repr(int), 3 = repr(C, int); tag size; variants = (discriminant, fields) *)
-| CEnum (rk : N) (tagsize : N) (variants : list (Z * list cty)).
+(* enum: 1 = repr(C) (tag is c_int), 2 = repr(int), 3 = repr(C, int); tag size; align(N) modifier (0: none);
+   variants = (discriminant, fields) *)
+| CEnum (rk : N) (tagsize : N) (ealign : N) (tag_signed : bool) (variants : list (Z * list cty)).
 
 (* ---- layout (size, align) by the reference's rules ---- *)
 Fixpoint lay (t : cty) : N * N :=
@@ -24,21 +25,21 @@ Fixpoint lay (t : cty) : N * N :=
   | CLeaf s a _ => (s, a)
   | CStruct p al fs =>
       let l := layout_C p al (map (fun f => let '(s, a) := lay f in mkFld s a) fs) in (lc_size l, lc_align l)
-  | CEnum rk ts vs =>
+  | CEnum rk ts ea _ vs =>
       let tag := mkFld ts ts in
       let vlay (fs : list cty) (with_tag : bool) :=
         layout_C 0 0 ((if with_tag then [tag] else []) ++ map (fun f => let '(s, a) := lay f in mkFld s a) fs) in
       if rk =? 2 then
         (* repr(int): a union of repr(C) structs, each starting with the tag *)
         let ls := map (fun v => vlay (snd v) true) vs in
-        let a := fold_right (fun l m => N.max (lc_align l) m) ts ls in
+        let a := N.max ea (fold_right (fun l m => N.max (lc_align l) m) ts ls) in
         (round_up (fold_right (fun l m => N.max (lc_size l) m) ts ls) a, a)
       else
         (* repr(C) / repr(C, int): struct { tag, union of the variants' repr(C) structs } *)
         let ls := map (fun v => vlay (snd v) false) vs in
         let ua := fold_right (fun l m => N.max (lc_align l) m) 1 ls in
         let us := round_up (fold_right (fun l m => N.max (lc_size l) m) 0 ls) ua in
-        let l := layout_C 0 0 [tag; mkFld us ua] in (lc_size l, lc_align l)
+        let l := layout_C 0 ea [tag; mkFld us ua] in (lc_size l, lc_align l)
   end.
 
 (* ---- the Bits type the macro generates: the same shape with every leaf replaced by its Bits
@@ -47,20 +48,20 @@ Fixpoint bits_of (t : cty) : cty :=
   match t with
   | CLeaf s a _ => CLeaf s a LAny
   | CStruct p al fs => CStruct p al (map bits_of fs)
-  | CEnum rk ts vs => CEnum rk ts (map (fun v => (fst v, map bits_of (snd v))) vs)
+  | CEnum rk ts ea sg vs => CEnum rk ts ea sg (map (fun v => (fst v, map bits_of (snd v))) vs)
   end.
 
 Section CtyInd.
   Variable P : cty -> Prop.
   Hypothesis Hl : forall s a k, P (CLeaf s a k).
   Hypothesis Hs : forall p al fs, Forall P fs -> P (CStruct p al fs).
-  Hypothesis He : forall rk ts vs, Forall (fun v => Forall P (snd v)) vs -> P (CEnum rk ts vs).
+  Hypothesis He : forall rk ts ea sg vs, Forall (fun v => Forall P (snd v)) vs -> P (CEnum rk ts ea sg vs).
   Fixpoint cty_ind' (t : cty) : P t :=
     match t with
     | CLeaf s a k => Hl s a k
     | CStruct p al fs => Hs p al fs ((fix go (l : list cty) : Forall P l :=
         match l with [] => Forall_nil P | x :: r => Forall_cons x (cty_ind' x) (go r) end) fs)
-    | CEnum rk ts vs => He rk ts vs ((fix gov (l : list (Z * list cty)) : Forall (fun v => Forall P (snd v)) l :=
+    | CEnum rk ts ea sg vs => He rk ts ea sg vs ((fix gov (l : list (Z * list cty)) : Forall (fun v => Forall P (snd v)) l :=
         match l with
         | [] => Forall_nil _
         | v :: r => Forall_cons v ((fix go (l : list cty) : Forall P l :=
@@ -116,8 +117,8 @@ Fixpoint valid (fuel : nat) (signed : bool) (t : cty) (bs : list N) {struct fuel
           let flds := map (fun f => let '(s, a) := lay f in mkFld s a) fs in
           let offs := lc_offsets (layout_C p al flds) in
           forallb (fun fo => valid k signed (fst fo) (slice_bytes bs (snd fo) (fst (lay (fst fo))))) (combine fs offs)
-      | CEnum rk ts vs =>
-          let tag := tag_value signed ts bs in
+      | CEnum rk ts _ sg vs =>
+          let tag := tag_value sg ts bs in   (* each enum reads its tag with the signedness of its own repr *)
           match find (fun v => (fst v =? tag)%Z) vs with
           | None => false
           | Some v =>
